@@ -574,7 +574,11 @@ impl Resolver<'_> {
                 let top = transform_call.input.ty.clone().unwrap();
                 let bottom = bottom.ty.clone().unwrap();
 
-                Some(type_intersection(top, bottom))
+                Some(type_intersection(top, bottom).map_err(|e| {
+                    e.with_span(transform_call.input.span).push_hint(
+                        "make sure that top and bottom relations of append has the same column layout",
+                    )
+                })?)
             }
         })
     }
